@@ -217,7 +217,7 @@ class C17(core.PropBase):
                 return []
             return [["rt_job", core.mval_sx(case.pop("_job"))]]
         try:
-            return [["rt_job_template" if case["kind"] == "job" else "rt_env_template", core.json_sx(case["doc"])]]
+            return [["rtf_job_template" if case["kind"] == "job" else "rtf_env_template", core.json_sx(case["doc"])]]
         except ValueError:
             return []       # a non-finite number: no document of the model's json type, and nothing a template may hold
 
@@ -256,8 +256,10 @@ class C17(core.PropBase):
                 # compare, the implementation's own observations all hold
                 return res
             return ["model", r]
-        o, ok = r[1]
-        return ["ok", {"obj": renorm(core.from_wire(o)), "plain": True, "json": True, "yaml": True, "faithful": True, "redecode": ok == "true"}]
+        o, ok, faithful = r[1]
+        # faithful: the extracted decision function jequivb (proved sound and complete for jequiv, and true of every
+        # accepted document by C17_faithful_decided) on the source document and the model's export
+        return ["ok", {"obj": renorm(core.from_wire(o)), "plain": True, "json": True, "yaml": True, "faithful": faithful == "true", "redecode": ok == "true"}]
 
     def classify_case(self, case, obs):
         return [case["kind"] + (":mutant" if "mut" in case else "") + ":" + (obs[0] if obs[0] != "skip" else "skip:" + obs[1])]
